@@ -160,6 +160,7 @@ def near_token(j, o):
 def run_shard(tier, shard, res: Result):
     st = {}
     if reuse_applies(shard):
+        lab.install_transition_recorder()
         st["shared-parser"] = lab.sl_parser.Parser()
     n = 0
     for label, data, info in pwork.cases(shard):
@@ -168,6 +169,8 @@ def run_shard(tier, shard, res: Result):
         if n % 9973 == 1 or (shard["w"] != "tok" and n % 211 == 1):
             res.sample({"workload": label, "input": data, "judge": j.v,
                         "reason": j.reason, "parser": str(o.verdict())}, cap=3)
+    for t in lab.TRANSITIONS:
+        res.observe("parser-transitions(state-function/token/outcome)", t)
 
 
 def replay(witness, res: Result):
